@@ -716,6 +716,8 @@ func runHistory(run *emit.Run, hs *histSpec, tag string) (res *histResult, fatal
 				}
 			}
 			run.Count("exec/"+op.Path, resTerm)
+			run.Count("hook-valset-update", fmt.Sprintf("pre=%v ok=%v atomic=%v", pre, xerr == nil, op.Atomic))
+			run.Count("caller-bytes", fmt.Sprintf("%s/%d", op.Path, len(sender)+len(contract)*map[bool]int{true: 1, false: 0}[op.Path != "keeper"]))
 			after, err := e.readQueues(e.ctx)
 			if err != nil {
 				return nil, err
@@ -932,103 +934,133 @@ func genHistory(r *rand.Rand, hostile bool) *histSpec {
 	}
 	ids := jobIDs
 	nOps := 4 + r.Intn(7)
-	var made []string
-	for i := 0; i < nOps; i++ {
-		k := r.Intn(10)
-		switch {
-		case k < 3 || len(made) == 0 && k < 6:
-			id := ids[r.Intn(5)]
-			if hostile || r.Intn(10) == 0 {
-				id = ids[r.Intn(len(ids))]
+	type madeJob struct {
+		id  string
+		mod bool
+	}
+	var made []madeJob
+	used := map[string]bool{}
+	genCreate := func(fresh bool) {
+		id := ids[r.Intn(5)]
+		if fresh && !hostile {
+			for k := 0; k < 5 && used[id]; k++ {
+				id = ids[r.Intn(5)]
 			}
-			js := &jobSpec{ID: id, CType: "evm", CRef: chainRefs[r.Intn(2)], Def: pick(defPool, 3), Payload: pick(payPool, 7), Mod: r.Intn(2) == 0}
-			switch r.Intn(12) {
-			case 0:
-				js.CRef = "gnosis-main"
-			case 1:
-				js.CRef = "ghost-chain"
-			case 2:
-				js.CType = "cosmos"
-			case 3:
-				js.CRef = ""
+		}
+		if hostile && r.Intn(3) == 0 || r.Intn(14) == 0 {
+			id = ids[r.Intn(len(ids))]
+		}
+		js := &jobSpec{ID: id, CType: "evm", CRef: chainRefs[r.Intn(2)], Def: pick(defPool, 3), Payload: pick(payPool, 7), Mod: r.Intn(5) < 3}
+		switch r.Intn(24) {
+		case 0, 1:
+			js.CRef = "gnosis-main"
+		case 2:
+			js.CRef = "ghost-chain"
+		case 3:
+			js.CType = "cosmos"
+		case 4:
+			js.CRef = ""
+		}
+		if r.Intn(4) == 0 {
+			js.Mev = true
+			if r.Intn(6) != 0 {
+				js.CRef = chainRefs[r.Intn(2)]
 			}
-			if r.Intn(4) == 0 {
-				js.Mev = true
-				if r.Intn(4) != 0 {
-					js.CRef = chainRefs[r.Intn(2)]
-				}
+		}
+		op := opSpec{Kind: "create", Job: js}
+		switch r.Intn(3) {
+		case 0:
+			op.Path = "msg"
+			op.Creator = hex.EncodeToString(accounts[r.Intn(len(accounts))])
+		case 1:
+			op.Path = "wasm"
+			op.Creator = hex.EncodeToString(contracts[r.Intn(len(contracts))])
+		default:
+			op.Path = "keeper"
+			op.Creator = hex.EncodeToString(accounts[r.Intn(len(accounts))])
+			if r.Intn(10) == 0 {
+				op.Creator = ""
 			}
-			op := opSpec{Kind: "create", Job: js}
-			switch r.Intn(3) {
-			case 0:
-				op.Path = "msg"
-				op.Creator = hex.EncodeToString(accounts[r.Intn(len(accounts))])
-			case 1:
-				op.Path = "wasm"
-				op.Creator = hex.EncodeToString(contracts[r.Intn(len(contracts))])
+		}
+		hs.Ops = append(hs.Ops, op)
+		if !used[id] {
+			made = append(made, madeJob{id, js.Mod})
+		}
+		used[id] = true
+	}
+	genExec := func() {
+		target := madeJob{ids[r.Intn(5)], r.Intn(2) == 0}
+		if len(made) > 0 && (hostile && r.Intn(2) == 0 || !hostile && r.Intn(10) != 0) {
+			target = made[r.Intn(len(made))]
+		}
+		op := opSpec{Kind: "exec", ID: target.id, Atomic: r.Intn(2) == 0}
+		path := r.Intn(4)
+		if !target.mod && !hostile && r.Intn(4) != 0 {
+			path = 3 * r.Intn(2) // a fixed job can only be run without a payload: msg server or keeper
+		}
+		switch path {
+		case 0:
+			op.Path = "msg"
+			op.Sender = hex.EncodeToString(accounts[r.Intn(len(accounts))])
+			if !hostile && r.Intn(3) != 0 {
+				op.Sender = hex.EncodeToString(accounts[r.Intn(3)])
+			}
+			switch k := r.Intn(4); {
+			case k == 0 || !target.mod && k < 3:
+				op.InNil = true
+			case k == 1 || k == 2:
+				op.In = pick(payPool, 7)
 			default:
-				op.Path = "keeper"
-				op.Creator = hex.EncodeToString(accounts[r.Intn(len(accounts))])
-				if r.Intn(6) == 0 {
-					op.Creator = ""
-				}
+				op.In = ""
 			}
-			hs.Ops = append(hs.Ops, op)
-			made = append(made, id)
-		case k == 9:
+		case 1:
+			op.Path = "wasm"
+			op.Contract = hex.EncodeToString(contracts[r.Intn(len(contracts))])
+			op.In = string(randAddr(r, 1+r.Intn(40)))
+			if r.Intn(10) == 0 {
+				op.In = ""
+			}
+			if r.Intn(14) == 0 {
+				op.ID = ""
+			}
+		case 2:
+			op.Path = "legacy"
+			op.Contract = hex.EncodeToString(contracts[r.Intn(len(contracts))])
+			op.In = string(randAddr(r, r.Intn(40)))
+			if r.Intn(14) == 0 {
+				op.ID = ""
+			}
+		default:
+			op.Path = "keeper"
+			lens := []int{20, 32, 20, 32, 33, 0, 31, 64}
+			op.Sender = hex.EncodeToString(randAddr(r, lens[r.Intn(len(lens))]))
+			op.Contract = hex.EncodeToString(randAddr(r, lens[r.Intn(len(lens))]))
+			op.SNil = r.Intn(3) == 0
+			op.CNil = r.Intn(3) == 0
+			switch k := r.Intn(4); {
+			case k == 0 || !target.mod && k < 3:
+				op.InNil = true
+			case k == 1:
+				op.In = pick(payPool, 7)
+			default:
+				op.In = string(wrapJSON(randAddr(r, r.Intn(8))))
+			}
+		}
+		hs.Ops = append(hs.Ops, op)
+	}
+	if !hostile {
+		for k := 1 + r.Intn(2); k > 0; k-- {
+			genCreate(true)
+		}
+	}
+	for len(hs.Ops) < nOps {
+		switch k := r.Intn(20); {
+		case k < 4:
+			genCreate(r.Intn(2) == 0)
+		case k < 6:
 			hs.Ops = append(hs.Ops, opSpec{Kind: "resnap"})
 		default:
-			id := ids[r.Intn(5)]
-			if len(made) > 0 && r.Intn(6) != 0 {
-				id = made[r.Intn(len(made))]
-			}
-			op := opSpec{Kind: "exec", ID: id, Atomic: r.Intn(2) == 0}
-			switch r.Intn(4) {
-			case 0:
-				op.Path = "msg"
-				op.Sender = hex.EncodeToString(accounts[r.Intn(len(accounts))])
-				switch r.Intn(3) {
-				case 0:
-					op.InNil = true
-				case 1:
-					op.In = pick(payPool, 7)
-				default:
-					op.In = ""
-				}
-			case 1:
-				op.Path = "wasm"
-				op.Contract = hex.EncodeToString(contracts[r.Intn(len(contracts))])
-				op.In = string(randAddr(r, 1+r.Intn(40)))
-				if r.Intn(8) == 0 {
-					op.In = ""
-				}
-				if r.Intn(10) == 0 {
-					op.ID = ""
-				}
-			case 2:
-				op.Path = "legacy"
-				op.Contract = hex.EncodeToString(contracts[r.Intn(len(contracts))])
-				op.In = string(randAddr(r, r.Intn(40)))
-				if r.Intn(10) == 0 {
-					op.ID = ""
-				}
-			default:
-				op.Path = "keeper"
-				lens := []int{20, 32, 33, 0, 31, 64}
-				op.Sender = hex.EncodeToString(randAddr(r, lens[r.Intn(len(lens))]))
-				op.Contract = hex.EncodeToString(randAddr(r, lens[r.Intn(len(lens))]))
-				op.SNil = r.Intn(3) == 0
-				op.CNil = r.Intn(3) == 0
-				switch r.Intn(3) {
-				case 0:
-					op.InNil = true
-				case 1:
-					op.In = pick(payPool, 7)
-				default:
-					op.In = string(wrapJSON(randAddr(r, r.Intn(8))))
-				}
-			}
-			hs.Ops = append(hs.Ops, op)
+			genExec()
 		}
 	}
 	return hs
